@@ -7,6 +7,7 @@ import (
 	"go/ast"
 	"go/parser"
 	"go/types"
+	"sort"
 	"strings"
 
 	"golang.org/x/tools/go/ssa"
@@ -124,7 +125,55 @@ func (ex *Exec) VerifyFunc(ct *Contract, fn *ssa.Function) *FnReport {
 			Pos: fmt.Sprintf("%s:%d", cl.File, cl.Line)})
 	}
 	rep.NInvs = len(ct.Invs)
+	if ct.HasAssigns {
+		ex.frameObligations(ct, fr.entry, out)
+	}
 	return rep
+}
+
+// frameObligations: for a verified function with an 'assigns' clause, every heap component not listed
+// keeps, at every object that existed on entry, the value it had on entry.
+func (ex *Exec) frameObligations(ct *Contract, entry, out *State) {
+	f := ex.f
+	var names []string
+	for n := range ex.compSort {
+		names = append(names, n)
+	}
+	sort.Strings(names)
+	listed := func(n string) bool {
+		for _, a := range ct.Assigns {
+			if a == n || (strings.HasSuffix(a, "*") && strings.HasPrefix(n, strings.TrimSuffix(a, "*"))) {
+				return true
+			}
+		}
+		return false
+	}
+	// marker, so that the baseline knows this function has a verified frame: a frame obligation that appears
+	// later (a write to a component the function did not touch before) is then judged like a baseline one
+	ex.addOblig(&Obligation{Name: ct.Key() + "/frame:(declared)", Kind: "frame", Fn: ct.Key(), Goal: f.True(), PC: out.pc})
+	for _, n := range names {
+		if strings.HasPrefix(n, "L.") || strings.HasPrefix(n, "IT.") || listed(n) {
+			continue
+		}
+		s := ex.compSort[n]
+		before := ex.comp(entry, n, s)
+		after := ex.comp(out, n, s)
+		if before == after {
+			// untouched on every path: trivially framed (still counted, so that the obligation set is stable)
+			ex.addOblig(&Obligation{Name: ct.Key() + "/frame:" + n, Kind: "frame", Fn: ct.Key(), Goal: f.True(), PC: out.pc})
+			continue
+		}
+		ks, _ := s.ArrayParts()
+		r := f.Fresh("frame.r", ks)
+		var goal *Term
+		if ks == SInt {
+			goal = f.Implies(f.And(f.Gt(r, f.Int(0)), f.Lt(r, entry.frontier)), f.Eq(f.Select(after, r), f.Select(before, r)))
+		} else {
+			goal = f.Eq(f.Select(after, r), f.Select(before, r))
+		}
+		ex.addOblig(&Obligation{Name: ct.Key() + "/frame:" + n, Kind: "frame", Fn: ct.Key(), Goal: goal, PC: out.pc,
+			Clause: &Clause{Text: "assigns " + strings.Join(ct.Assigns, ", ") + "  (component " + n + " must be unchanged on every pre-existing object)", File: ct.File, Line: ct.Line}})
+	}
 }
 
 // ---------- lemmas: (params) requires... ensures...
